@@ -136,6 +136,7 @@ def _dmrg_(psi, H : MpsMpoOBC | Sequence[tuple[MpsMpoOBC, float]], project, meth
 
     if not psi.is_canonical(to='first'):
         psi.canonize_(to='first')
+    psi.factor = 1  # DMRG works with a normalized state; canonize_ resets the factor only when it is executed
 
     env = Env(psi, [H, psi], precompute=precompute)
     if project:
